@@ -714,6 +714,9 @@ func (c *Client) receipts(ctx context.Context, url string, bm blockmap, start, l
 			return fmt.Errorf("rpc=%s %w", tag, resps[i].Error)
 		}
 	}
+	// the results are attached by the block they name,
+	// whatever their order in the batch response
+	withReceipts := map[uint64]bool{}
 	for i := range resps {
 		if resps[i].Result == nil {
 			const tag = "eth_getBlockReceipts missing result. num=%d"
@@ -721,11 +724,6 @@ func (c *Client) receipts(ctx context.Context, url string, bm blockmap, start, l
 		}
 		if len(resps[i].Result) == 0 {
 			// block without transactions
-			if b, ok := bm[start+uint64(i)]; ok && len(b.Txs) > 0 {
-				// the block came from the cache and has been replaced since
-				const tag = "eth_getBlockReceipts no receipts for block with transactions. num=%d"
-				return fmt.Errorf(tag, start+uint64(i))
-			}
 			continue
 		}
 		blockNum := uint64(resps[i].Result[0].BlockNum)
@@ -764,6 +762,14 @@ func (c *Client) receipts(ctx context.Context, url string, bm blockmap, start, l
 			copy(tx.Logs, resps[i].Result[j].Logs)
 		}
 		b.Unlock()
+		withReceipts[blockNum] = true
+	}
+	for n, b := range bm {
+		if len(b.Txs) > 0 && !withReceipts[n] {
+			// the block came from the cache and has been replaced since
+			const tag = "eth_getBlockReceipts no receipts for block with transactions. num=%d"
+			return fmt.Errorf(tag, n)
+		}
 	}
 	return nil
 }
